@@ -165,6 +165,26 @@ def _unstring(node):
 NEUTRAL = (('nbsp', '\xa0', ' '), ('one_tuple', '(1,)', '(1, 2)'), ('float_inf', '1e999', '1.5'))
 
 
+def _unstring_src(node):
+    """source text of the expected display of an annotation-like expression (strings unquoted, not inside Literal)"""
+    import ast
+
+    class U(ast.NodeTransformer):
+        def visit_Subscript(self, n):
+            if ast.unparse(n.value).split('.')[-1] == 'Literal':
+                return n
+            return self.generic_visit(n)
+
+        def visit_Constant(self, n):
+            if isinstance(n.value, str):
+                try:
+                    return self.visit(ast.parse(n.value, mode='eval').body)
+                except SyntaxError:
+                    return n
+            return n
+    return ast.unparse(U().visit(ast.parse(ast.unparse(node), mode='eval').body))
+
+
 def _check(case):
     """the check proper, plus the recognition of listed findings: a failure carries the flag of a finding only if the source has
     that specific feature and the failure disappears once the feature alone is replaced by something harmless"""
